@@ -605,14 +605,18 @@ fn answer(a: &[&str]) -> String {
             }
         }
         // cmd_len (GGGG EEEE len)* -> "<value of (0000,0000)> <bytes written in Implicit VR LE for the other group-0000 elements>"
-        "cmd_len" => {
+        // cmd_len_decl: as cmd_len with a fourth word per element, the length declared in the element's header (DataElement::new_with_len)
+        "cmd_len" | "cmd_len_decl" => {
             use dicom_core::{DataElement, VR};
             use dicom_object::InMemDicomObject;
             let mut elems = Vec::new();
-            for c in a[1..].chunks(3) {
+            let w = if a[0] == "cmd_len" { 3 } else { 4 };
+            for c in a[1..].chunks(w) {
                 let t = Tag(u16::from_str_radix(c[0], 16).unwrap(), u16::from_str_radix(c[1], 16).unwrap());
                 let l: usize = c[2].parse().unwrap();
-                elems.push(DataElement::new(t, VR::OB, PrimitiveValue::U8(vec![0x55u8; l].into())));
+                let v = PrimitiveValue::U8(vec![0x55u8; l].into());
+                if w == 3 { elems.push(DataElement::new(t, VR::OB, v)); }
+                else { elems.push(DataElement::new_with_len(t, VR::OB, dicom_core::Length(c[3].parse().unwrap()), v)); }
             }
             let obj = InMemDicomObject::command_from_element_iter(elems);
             let glen = obj.element(Tag(0, 0)).unwrap().to_int::<u32>().unwrap();
@@ -825,6 +829,29 @@ fn answer(a: &[&str]) -> String {
                         Err(e) => format!("DIFF {} error={}", t, e).replace(' ', "_").replacen('_', " ", 1),
                     }
                 }
+            }
+        }
+        // file_flush_fail <transfer syntax uid> -> "ERR" | "OK" | "UNSUPPORTED": FileDicomObject::write_dataset of a small data set over a writer that
+        // rejects every write (the data set fits the BufWriter, so the rejection can only surface when the writer is flushed)
+        "file_flush_fail" => {
+            use dicom_object::{FileMetaTableBuilder, InMemDicomObject};
+            use dicom_core::{DataElement, VR, Tag, PrimitiveValue};
+            struct Reject;
+            impl std::io::Write for Reject {
+                fn write(&mut self, _b: &[u8]) -> std::io::Result<usize> { Err(std::io::Error::new(std::io::ErrorKind::Other, "rejected")) }
+                fn flush(&mut self) -> std::io::Result<()> { Ok(()) }
+            }
+            let mut obj = InMemDicomObject::new_empty();
+            obj.put(DataElement::new(Tag(0x0010, 0x0010), VR::PN, PrimitiveValue::from("Doe^John")));
+            let meta = FileMetaTableBuilder::new()
+                .media_storage_sop_class_uid("1.2.840.10008.5.1.4.1.1.7")
+                .media_storage_sop_instance_uid("1.2.3")
+                .transfer_syntax(a[1]);
+            let file = match obj.with_meta(meta) { Ok(f) => f, Err(_) => return "BAD meta".into() };
+            match std::panic::catch_unwind(std::panic::AssertUnwindSafe(|| file.write_dataset(Reject))) {
+                Ok(Ok(())) => "OK".into(),
+                Ok(Err(e)) => { let t = format!("{}", e); if t.contains("nsupported") || t.contains("nrecognized") { "UNSUPPORTED".into() } else { "ERR".into() } }
+                Err(_) => "PANIC".into(),
             }
         }
         // meta_len <presence mask of the 6 optional attributes> <9 field texts in hex> <private information length> -> "L <recorded group length> <bytes that follow the group length element>"
